@@ -387,32 +387,6 @@ def emit_planets(kind, vs_tables, wr):
     return '\n'.join(o) + '\n'
 
 
-GEOCENTRIC = ['Mercury', 'Venus', 'Mars', 'Jupiter', 'Saturn', 'Uranus', 'Neptune']
-
-
-def check_geocentric(mods):
-    """lean/templates/Geocentric.lean has ONE text for the seven <Planet>.geocentric_position methods; that is
-    only sound while the seven bodies are the same program up to the class name: checked here on every run."""
-    ref = None
-    for p in GEOCENTRIC:
-        cls = [n for n in mods[p].tree.body if isinstance(n, ast.ClassDef) and n.name == p]
-        fs = [f for f in cls[0].body if isinstance(f, ast.FunctionDef) and f.name == 'geocentric_position'] if cls else []
-        if len(fs) != 1:
-            fail('%s.geocentric_position not found' % p)
-        f = fs[0]
-        body = f.body
-        if body and isinstance(body[0], ast.Expr) and isinstance(body[0].value, ast.Constant) \
-                and isinstance(body[0].value.value, str):
-            body = body[1:]
-        text = ast.dump(ast.Module(body=body, type_ignores=[]), include_attributes=False)
-        text = text.replace("'%s'" % p, "'PLANET'")
-        args = ast.dump(f.args) + repr([ast.dump(d) for d in f.decorator_list])
-        if ref is None:
-            ref = (text, args, p)
-        elif (text, args) != ref[:2]:
-            fail('%s.geocentric_position differs from %s.geocentric_position by more than the class name' % (p, ref[2]))
-
-
 VS_NAME = {'L': 'VSOP87_L', 'B': 'VSOP87_B', 'R': 'VSOP87_R', 'LJ': 'VSOP87_L_J2000', 'BJ': 'VSOP87_B_J2000'}
 
 
@@ -474,7 +448,6 @@ def main():
             fail('%s shorter than PLUTO_ARGUMENT' % var)
     small['PLUTO_ARGUMENT'] = pa
     wr = wrappers(mods, coord)
-    check_geocentric(mods)
     for kind in ('R', 'F'):
         changed += write(os.path.join(LEAN, 'Pymeeus', 'Gen', kind, 'TablesSmall.lean'), emit_small(kind, small))
         changed += write(os.path.join(LEAN, 'Pymeeus', 'Gen', kind, 'VsopPlanets.lean'), emit_planets(kind, vs, wr))
